@@ -42,7 +42,7 @@ pub fn gen_text(d: &mut Dice<'_>, stream: &[u32]) -> String {
             print(&g).text
         }
         3 | 4 => {
-            let g = ggen::build(&Profile { c11_shapes: true, ..Profile::full() }, stream);
+            let g = ggen::build(&Profile::text(), stream);
             textgen::layout(&g, d, true).text
         }
         5 => {
